@@ -41,6 +41,12 @@ type gModel struct {
 	Seeds    []string `json:"seeds"`
 	Excludes []string `json:"excludes"`
 	Passthru []string `json:"passthru"`
+	// further views of the same project, generated in the same call, with their own exclude lists
+	Extra []gView `json:"extra,omitempty"`
+}
+type gView struct {
+	Seeds    []string `json:"seeds"`
+	Excludes []string `json:"excludes"`
 }
 
 func (s gStmt) render(b *strings.Builder, ind string) {
@@ -178,6 +184,25 @@ func genCallModel(r *Rand, nApps int) *gModel {
 	if r.Chance(1, 8) {
 		m.Seeds = append(m.Seeds, "NoSuchApp") // a listed name that is not an application
 	}
+	// other views of the same project with different exclude lists (never excluding a listed app)
+	if r.Chance(1, 2) {
+		nv := 1 + r.Intn(2)
+		for v := 0; v < nv; v++ {
+			gv := gView{Seeds: append([]string{}, m.Seeds...)}
+			for _, a := range m.Apps {
+				listed := false
+				for _, sd := range gv.Seeds {
+					if sd == a.Name {
+						listed = true
+					}
+				}
+				if !listed && r.Chance(1, 3) {
+					gv.Excludes = append(gv.Excludes, a.Name)
+				}
+			}
+			m.Extra = append(m.Extra, gv)
+		}
+	}
 	// mostly keep listed applications off the exclude list (the excluded point is sampled too)
 	if !r.Chance(1, 10) {
 		var ex []string
@@ -230,6 +255,12 @@ func (m *gModel) text() string {
 	fmt.Fprintf(&b, "Project [appfmt=\"%%(appname)\"]:\n    Proj [%s]:\n", strings.Join(attrs, ", "))
 	for _, s := range m.Seeds {
 		fmt.Fprintf(&b, "        %s\n", s)
+	}
+	for i, v := range m.Extra {
+		fmt.Fprintf(&b, "    View%d [exclude=%s]:\n", i, q(append([]string{"Project"}, v.Excludes...)))
+		for _, s := range v.Seeds {
+			fmt.Fprintf(&b, "        %s\n", s)
+		}
 	}
 	return b.String()
 }
@@ -350,6 +381,7 @@ func runC14(res *Result, tier string, rnd *Rand, replay string) {
 		deps   [][]string
 		final  []string
 		arrows [][2]string
+		views  map[string]string
 	}
 	var all []obs
 	var reqs []any
@@ -367,6 +399,7 @@ func runC14(res *Result, tier string, rnd *Rand, replay string) {
 			deps   [][]string
 			final  []string
 			text   string
+			views  map[string]string
 			panicv string
 		}
 		ch := make(chan out, 1)
@@ -386,12 +419,11 @@ func runC14(res *Result, tier string, rnd *Rand, replay string) {
 				r.deps = append(r.deps, []string{d.Self.Name, d.Self.Endpoint, d.Target.Name, d.Target.Endpoint})
 			}
 			r.final = b.FinalApps
-			params := &cmdutils.CmdContextParamIntgen{Title: "t", Output: "out.png", Project: "Project"}
+			params := &cmdutils.CmdContextParamIntgen{Title: "t", Output: "%(epname).png", Project: "Project"}
 			views, err := integrationdiagram.GenerateIntegrations(params, mod, logger)
 			if err == nil {
-				for _, v := range views {
-					r.text = v
-				}
+				r.text = views["Proj.png"]
+				r.views = views
 			}
 		}()
 		var r out
@@ -413,6 +445,7 @@ func runC14(res *Result, tier string, rnd *Rand, replay string) {
 			res.Disagree(Disagreement{Input: m, What: "PlantUML arrow uses an undeclared alias", Impl: r.text})
 		}
 		o.arrows = ar
+		o.views = r.views
 		all = append(all, o)
 		reqs = append(reqs, m.oracleReq())
 		nested := strings.Contains(txt, "            ")
@@ -438,74 +471,92 @@ func runC14(res *Result, tier string, rnd *Rand, replay string) {
 		if fmt.Sprint(rep["final"]) != fmt.Sprint(anyStrs(o.final)) {
 			res.Disagree(Disagreement{Input: o.m, What: "FinalApps differs", Model: rep["final"], Impl: o.final})
 		}
-		// ---- direct oracle on the PlantUML arrows ----
-		calls := map[[2]string]bool{}
-		for _, a := range o.m.Apps {
-			for _, e := range a.Eps {
-				for _, c := range flattenCalls(e.Stmts) {
-					calls[[2]string{a.Name, c[0]}] = true
-				}
+		// ---- direct oracle on the PlantUML arrows, for every view generated in the call ----
+		c14DirectView(res, o.m, o.m.Seeds, o.m.Excludes, o.arrows)
+		for vi, v := range o.m.Extra {
+			txt, ok := o.views[fmt.Sprintf("View%d.png", vi)]
+			if !ok {
+				res.Disagree(Disagreement{Input: o.m, What: fmt.Sprintf("view View%d missing from the output", vi)})
+				continue
 			}
-		}
-		excl := map[string]bool{"Project": true}
-		for _, e := range o.m.Excludes {
-			excl[e] = true
-		}
-		seedExcluded := false
-		seeds := map[string]bool{}
-		appBy := map[string]*gApp{}
-		for k := range o.m.Apps {
-			appBy[o.m.Apps[k].Name] = &o.m.Apps[k]
-		}
-		for _, s := range o.m.Seeds {
-			if a := appBy[s]; a != nil && !a.Human {
-				seeds[s] = true
-				if excl[s] {
-					seedExcluded = true
-				}
+			ar, ok := parseIntsArrows(txt)
+			if !ok {
+				res.Disagree(Disagreement{Input: o.m, What: "PlantUML arrow uses an undeclared alias", Impl: txt})
 			}
-		}
-		drawn := map[[2]string]bool{}
-		for _, ar := range o.arrows {
-			drawn[ar] = true
-			if !calls[ar] {
-				res.Violate(Violation{Sig: "arrow-without-call", What: fmt.Sprintf("arrow %s --> %s has no call statement behind it", ar[0], ar[1]), Input: o.m})
-			}
-			if excl[ar[0]] || excl[ar[1]] {
-				sig := "arrow-touches-excluded"
-				if seedExcluded && ((seeds[ar[0]] && excl[ar[0]]) || (seeds[ar[1]] && excl[ar[1]])) &&
-					!(excl[ar[0]] && !seeds[ar[0]]) && !(excl[ar[1]] && !seeds[ar[1]]) {
-					// the only excluded end(s) of the arrow are applications the project view lists itself
-					sig = "arrow-touches-listed-and-excluded-application"
-				}
-				res.Violate(Violation{Sig: sig, What: fmt.Sprintf("arrow %s --> %s touches an excluded application", ar[0], ar[1]), Input: o.m})
-			}
-		}
-		for s := range seeds {
-			a := appBy[s]
-			for _, e := range a.Eps {
-				for _, c := range flattenCalls(e.Stmts) {
-					t := appBy[c[0]]
-					if t == nil || c[0] == s || excl[c[0]] || t.Human {
-						continue
-					}
-					hidden := false
-					for _, te := range t.Eps {
-						if te.Name == c[1] && te.Hidden {
-							hidden = true
-						}
-					}
-					if hidden {
-						continue
-					}
-					if !drawn[[2]string{s, c[0]}] {
-						res.Violate(Violation{Sig: "call-not-drawn", What: fmt.Sprintf("call %s -> %s <- %s from a listed application is not drawn", s, c[0], c[1]), Input: o.m})
-					}
-				}
-			}
+			c14DirectView(res, o.m, v.Seeds, v.Excludes, ar)
+			res.Count("extra-views")
 		}
 		if i%(len(all)/4+1) == 0 {
 			res.Sample(map[string]any{"seeds": o.m.Seeds, "excludes": o.m.Excludes, "passthru": o.m.Passthru, "deps": o.deps, "arrows": o.arrows})
+		}
+	}
+}
+
+// c14DirectView: the property itself on the arrows of one view (model-free)
+func c14DirectView(res *Result, m *gModel, viewSeeds, viewExcl []string, arrows [][2]string) {
+	calls := map[[2]string]bool{}
+	for _, a := range m.Apps {
+		for _, e := range a.Eps {
+			for _, c := range flattenCalls(e.Stmts) {
+				calls[[2]string{a.Name, c[0]}] = true
+			}
+		}
+	}
+	excl := map[string]bool{"Project": true}
+	for _, e := range viewExcl {
+		excl[e] = true
+	}
+	seedExcluded := false
+	seeds := map[string]bool{}
+	appBy := map[string]*gApp{}
+	for k := range m.Apps {
+		appBy[m.Apps[k].Name] = &m.Apps[k]
+	}
+	for _, s := range viewSeeds {
+		if a := appBy[s]; a != nil && !a.Human {
+			seeds[s] = true
+			if excl[s] {
+				seedExcluded = true
+			}
+		}
+	}
+	drawn := map[[2]string]bool{}
+	for _, ar := range arrows {
+		drawn[ar] = true
+		if !calls[ar] {
+			res.Violate(Violation{Sig: "arrow-without-call", What: fmt.Sprintf("arrow %s --> %s has no call statement behind it", ar[0], ar[1]), Input: m})
+		}
+		if excl[ar[0]] || excl[ar[1]] {
+			sig := "arrow-touches-excluded"
+			if seedExcluded && ((seeds[ar[0]] && excl[ar[0]]) || (seeds[ar[1]] && excl[ar[1]])) &&
+				!(excl[ar[0]] && !seeds[ar[0]]) && !(excl[ar[1]] && !seeds[ar[1]]) {
+				// the only excluded end(s) of the arrow are applications the project view lists itself
+				sig = "arrow-touches-listed-and-excluded-application"
+			}
+			res.Violate(Violation{Sig: sig, What: fmt.Sprintf("arrow %s --> %s touches an excluded application", ar[0], ar[1]), Input: m})
+		}
+	}
+	for s := range seeds {
+		a := appBy[s]
+		for _, e := range a.Eps {
+			for _, c := range flattenCalls(e.Stmts) {
+				t := appBy[c[0]]
+				if t == nil || c[0] == s || excl[c[0]] || t.Human {
+					continue
+				}
+				hidden := false
+				for _, te := range t.Eps {
+					if te.Name == c[1] && te.Hidden {
+						hidden = true
+					}
+				}
+				if hidden {
+					continue
+				}
+				if !drawn[[2]string{s, c[0]}] {
+					res.Violate(Violation{Sig: "call-not-drawn", What: fmt.Sprintf("call %s -> %s <- %s from a listed application is not drawn", s, c[0], c[1]), Input: m})
+				}
+			}
 		}
 	}
 }
